@@ -178,6 +178,11 @@ class Gen:
         self.features.add("version:list")
         if self.p(0.3):
             nums.append(self.r.choice([-1, -2, -3]))
+        if self.p(0.25):
+            # the integer-list form is a list of integers, whatever a text form could express: other negative numbers, a marker in front or in the
+            # middle followed by numbers, several markers, the empty list
+            self.features.add("version:list-free-form")
+            nums = self.r.choice([[1, 2, -4, 7], [-1, 3], [], [2, 5, -2], [-3], [1, -1, -2], [0, 0, -100], [3, -2, 4, -1, 5], [-65536, 1]])
         return nums
 
     # ---- commands ---------------------------------------------------------------------------------------
